@@ -89,6 +89,11 @@ CLAIMED = {
    text="Decides: every site that puts an entry into a result pairs key and value as promised - MapValues (k, fn(v)), MapKeys (fn(k,v), v), Invert (m[x], x), Pick/PickBy (k, collection[k]), FilterMap/FindByKey/MapUnique (k, v), SliceToMap (s1[i], s2[i]) under equal lengths, Keys/Values/MapCollection one cell per iteration - under exactly the per-element decision promised (fn(v), fn(k), fn(k,v), Contains(keys,k), not-seen) and no other; Pick/Omit and PickBy/OmitBy decide on the same call with opposite action; 'one entry' functions leave the loop after emitting, collection filters and PartitionMap emit once per input map in input order by append only; Find selects from keys that passed sort.Slice with a < comparator on that slice, and no function with a definite result leaves a range over a map early; quantifiers return at once on the deciding edge and their default after the whole range; no goroutines, no mutable globals. Choices the statement leaves open and duplicate values are not decided.",
    note="Trusted: go/ssa; Contains checked by C13; callbacks pure; table of promised pairings frozen in props/c14.go.",
    ref="DESIGN.md section 3 E3, section 4 C14"),
+ "C12": dict(
+   technique="canonical-scan recognition with exactly-once callback rules (PT5/PT1), exact per-element decision sets for placements (PV3), transposition-only rules (PV4), transposed-index pairing, guard dominance for windows, helper hygiene on go/ssa over slice.go/filter.go/shuffle.go",
+   text="Decides: Map/ForEach/Reduce scan forward and ForEachRight backward, completely, calling the callback exactly once per iteration on the element just read (Map stores fn(v) at v's index, Reduce threads the accumulator); Filter, DropWhile, DropRightWhile, Partition place the element just read under exactly the promised decision and mapByIndex/GroupBy appends origSlice[i] to the group of key i; Reject splices s[:i]+s[i+1:] exactly under fn(s[i]) and re-examines i; Merge appends s then each further slice in argument order onto fresh storage; Flatten's accumulator grows by appends only and malformed nesting is an error; Shuffle copies the whole input and then only swaps cells of the copy, Reverse/ReverseStr only swap in a two-pointer walk; Zip/Unzip store result[a][b] = slices[b][a] with both indices scanning completely behind the shape rejections; Chunk appends only non-empty windows starting at multiples of size and rejects size <= 0; Drop re-slices only under Abs(n) < len on the promised side. Window arithmetic beyond that, uniformity and involution are not decided.",
+   note="Trusted: go/ssa; Go append/copy/re-slice semantics; callbacks pure.",
+   ref="DESIGN.md section 3 E3/E4, section 4 C12"),
 }
 
 NOT_YET = "check not built yet (static-analysis engines under construction; see DESIGN.md section 7)"
